@@ -17,8 +17,8 @@ CONSTANT Enforce            \* which properties this run reports
 Rec == ndJsonDeserialize(IOEnv.TRACE)
 N == Len(Rec)
 
-VARIABLES l, db, viol, drift, stats
-vars == <<l, db, viol, drift, stats>>
+VARIABLES l, db, told, viol, drift, stats
+vars == <<l, db, told, viol, drift, stats>>
 
 SetOf(s) == {s[i] : i \in 1..Len(s)}
 
@@ -38,7 +38,7 @@ EvOf(e) == [kind |-> e.kind, c |-> e.c, req |-> e.req, P |-> SetOf(e.P), res |->
             mtype |-> e.mtype, sidp |-> e.sidp, sidin |-> e.sidin, echo |-> e.echo,
             rsid |-> e.rsid]
 
-Init == l = 1 /\ db = <<>> /\ viol = {} /\ drift = {} /\
+Init == l = 1 /\ db = <<>> /\ told = <<>> /\ viol = {} /\ drift = {} /\
         stats = [msgs |-> 0, ok |-> 0, noaddr |-> 0, takeover |-> 0, held |-> 0, held2 |-> 0,
                  reqheld |-> 0, boundary |-> 0, reopen |-> 0, clampLo |-> 0, clampHi |-> 0,
                  ignored |-> 0, metrics |-> 0, lists |-> 0, emptyMetrics |-> 0, boundaryRows |-> 0]
@@ -48,11 +48,12 @@ Bump(s, f, b) == IF b THEN [s EXCEPT ![f] = @ + 1] ELSE s
 MsgStep(e) ==
     LET a    == EvOf(e)
         pre  == Shift(db, e.t0)
+        preT == WithTold(pre, told)      \* client column = who was last told the address
         pabs == Table(e.db, DOMAIN db)
         post == Shift(pabs, e.t0)
-        bad  == [C01 |-> ~C01Step(pre, a, post), C09 |-> ~C09Step(pre, a, post),
+        bad  == [C01 |-> ~C01Step(preT, a, post), C09 |-> ~C09Step(preT, a, post),
                  C10 |-> ~C10Step(pre, a, post), C13 |-> ~C13Step(pre, a, post)]
-        shp  == [C01 |-> C01Shape(pre, a, post), C09 |-> C09Shape(pre, a, post),
+        shp  == [C01 |-> C01Shape(preT, a, post), C09 |-> C09Shape(preT, a, post),
                  C10 |-> C10Shape(pre, a, post), C13 |-> C13Shape(pre, a, post)]
         \* implementation-shaped expectation, for every instant the call may have read the clock at
         exp  == UNION {{IF r = NoAddr THEN <<0, -1>> ELSE <<r.y, Clamp(r.L, a.minl, a.maxl)>> :
@@ -63,6 +64,7 @@ MsgStep(e) ==
                   \/ (a.res \in {"noaddr", "nopool"} /\ <<0, -1>> \notin exp)
         hc == HeldC(pre, a)
     IN /\ db' = pabs
+       /\ told' = IF a.res = "ok" /\ a.y \in DOMAIN told THEN [told EXCEPT ![a.y] = a.c] ELSE told
        /\ viol' = viol \cup {<<p, l, shp[p]>> : p \in {q \in Enforce \cap DOMAIN bad : bad[q]}}
        /\ drift' = IF drifts THEN drift \cup {l} ELSE drift
        /\ stats' = Bump(Bump(Bump(Bump(Bump(Bump(Bump(Bump(Bump(Bump(stats,
@@ -82,7 +84,7 @@ ReopenStep(e) ==
                   THEN viol \cup {<<"C18", l, IF e.outcome # "ok" THEN "reopenFailed" ELSE "rowsChangedByReopen">>}
                   ELSE viol
        /\ stats' = Bump(stats, "reopen", TRUE)
-       /\ UNCHANGED drift
+       /\ UNCHANGED <<drift, told>>
 
 \* C20 (function level): gauges and listing against the table
 MetricsStep(e) ==
@@ -97,26 +99,28 @@ MetricsStep(e) ==
     IN /\ viol' = IF bad /\ "C20" \in Enforce THEN viol \cup {<<"C20", l, shape>>} ELSE viol
        /\ stats' = Bump(Bump(Bump(stats, "metrics", TRUE), "emptyMetrics", NRows(db) = 0),
                         "boundaryRows", \E x \in DOMAIN db : Has(db[x]) /\ db[x].e \in e.t0..e.t1)
-       /\ UNCHANGED <<db, drift>>
+       /\ UNCHANGED <<db, drift, told>>
 
 ListStep(e) ==
     LET bad == e.outcome # "ok" \/ Dups(e.entries) \/ Len(e.entries) # NRows(db)
                \/ Table(e.entries, DOMAIN db) # db
     IN /\ viol' = IF bad /\ "C20" \in Enforce THEN viol \cup {<<"C20", l, "listingDiffersFromStore">>} ELSE viol
        /\ stats' = Bump(stats, "lists", TRUE)
-       /\ UNCHANGED <<db, drift>>
+       /\ UNCHANGED <<db, drift, told>>
 
 Step ==
     /\ l <= N
     /\ l' = l + 1
     /\ LET e == Rec[l] IN
-       CASE e.ev = "reset"   -> db' = Table(e.db, SetOf(e.U)) /\ UNCHANGED <<viol, drift, stats>>
-         [] e.ev = "tick"    -> UNCHANGED <<db, viol, drift, stats>>
+       CASE e.ev = "reset"   -> /\ db' = Table(e.db, SetOf(e.U))
+                                /\ told' = [x \in SetOf(e.U) |-> 0]
+                                /\ UNCHANGED <<viol, drift, stats>>
+         [] e.ev = "tick"    -> UNCHANGED <<db, told, viol, drift, stats>>
          [] e.ev = "msg"     -> MsgStep(e)
          [] e.ev = "reopen"  -> ReopenStep(e)
          [] e.ev = "metrics" -> MetricsStep(e)
          [] e.ev = "list"    -> ListStep(e)
-         [] OTHER            -> UNCHANGED <<db, viol, drift, stats>>
+         [] OTHER            -> UNCHANGED <<db, told, viol, drift, stats>>
 
 Spec == Init /\ [][Step]_vars
 
